@@ -1,8 +1,8 @@
 SPECIFICATION Spec
 CONSTANTS
-  MaxLen = 4
+  MaxLen = 3
   GuardMode = "all"
-  NormAfterGuard <- NoApis
+  NormAfterGuard <- AllApiNames
   Classes <- CoreClasses
-INVARIANTS Confined TypeOK
+INVARIANTS Confined
 CHECK_DEADLOCK FALSE
